@@ -21,6 +21,7 @@
 package engine
 
 import (
+	"fmt"
 	"go/token"
 	"reflect"
 
@@ -107,7 +108,9 @@ func (r SliceReplacer) Replace(d data.Data, cl Changelog, pos token.Pos) (reflec
 		if err != nil {
 			return reflect.Value{}, err
 		}
-		v.Index(i).Set(item)
+		if err := assign(v.Index(i), item); err != nil {
+			return reflect.Value{}, err
+		}
 	}
 
 	return v, nil
@@ -143,9 +146,27 @@ func (r StructReplacer) Replace(d data.Data, cl Changelog, pos token.Pos) (refle
 		if err != nil {
 			return reflect.Value{}, err
 		}
-		v.Field(i).Set(fv)
+		if err := assign(v.Field(i), fv); err != nil {
+			return reflect.Value{}, fmt.Errorf("%v.%v: %w", r.Type, r.Type.Field(i).Name, err)
+		}
 	}
 	return v, nil
+}
+
+// assign sets dst to src, or returns an error if src cannot be used where a
+// value of dst's type is expected. This happens when a metavariable stands in
+// a position that only admits a specific kind of node, e.g., an expression
+// metavariable that matched "a + b" used as the name of a field.
+func assign(dst, src reflect.Value) error {
+	if !src.IsValid() || !src.Type().AssignableTo(dst.Type()) {
+		var got any = "nothing"
+		if src.IsValid() {
+			got = src.Type()
+		}
+		return fmt.Errorf("cannot use %v as %v", got, dst.Type())
+	}
+	dst.Set(src)
+	return nil
 }
 
 // InterfaceReplacer replaces an interface value.
